@@ -34,9 +34,10 @@ func mutated(p *fl.Program) map[string]bool {
 	fl.Walk(p, fl.Visitor{Expr: func(slot *fl.Expr, list *[]fl.Stmt, at int, role string) {
 		switch e := (*slot).(type) {
 		case *fl.Borrow:
-			if e.Mut {
-				m[fl.RootVar(e.X)] = true
-			}
+			// also a shared borrow: the language does not let a constant be borrowed at all
+			// ("not an addressable value"), so `let` -> `const` is not a rewrite within the
+			// language for a variable whose address is taken
+			m[fl.RootVar(e.X)] = true
 		case *fl.MCall:
 			m[fl.RootVar(e.Recv)] = true
 		}
@@ -143,9 +144,8 @@ func variants(p *fl.Program, quick bool) []variant {
 		if !ok || l.Const || mut[l.Name] {
 			return false
 		}
-		switch l.T.(type) {
-		case fl.TRef, fl.TDyn:
-			return false
+		if r, ok := l.T.(fl.TRef); ok && r.Mut {
+			return false // written through: not "never reassigned" in the reader's eyes
 		}
 		if _, isLit := l.Init.(*fl.FuncLit); isLit {
 			return false
@@ -281,6 +281,7 @@ func Run(c *vl.Ctx) {
 	quick := c.Quick()
 	bases := c01.Bases(quick)
 	bases = append(bases, c04.Bases(quick)...)
+	bases = append(bases, c01.SeqBases(quick)...)
 	if f := os.Getenv("VERIF_FILTER"); f != "" {
 		var b2 []*prog.Case
 		for _, b := range bases {
